@@ -7,6 +7,10 @@
 #define XV_STRINGS_H 1
 #include <stddef.h>
 #define XV_MAXSTR 4
+#define XV_NGHOST 2
+/* arbitrary-but-fixed positions at which the string models instantiate their
+   universally quantified postconditions (set by the harness; SIZE_MAX = unused) */
+extern size_t xv_ghost_idx[XV_NGHOST];
 struct xv_str { const char *p; size_t len; };
 extern struct xv_str xv_strs[XV_MAXSTR];
 extern int xv_nstrs;
